@@ -58,6 +58,12 @@ Step ==
        [] e.k = "final" -> /\ verdict' = (IF nd # Samples(h.n) \/ Len(e.series) # Samples(h.n) THEN "sample-count"
                                          ELSE IF e.series # vals THEN "series-differs-from-the-samples-taken"
                                          ELSE IF Abs(lastv - Equity(e, h.type)) > Tol(e) THEN "last-sample-not-the-final-portfolio-value"
+                                         \* annual return / Calmar of the report: (last / first) ^ (365 / days) with days = the
+                                         \* number of daily returns of the series (ar, cal: the days implied by the reported values)
+                                         ELSE IF e.ardef /\ ~(e.ar.close /\ e.ar.d = 1 /\ e.ar.n = nd - 1)
+                                              THEN "annual_return:not-annualised-over-the-daily-returns-of-the-series"
+                                         ELSE IF e.caldef /\ ~(e.cal.close /\ e.cal.d = 1 /\ e.cal.n = nd - 1)
+                                              THEN "calmar_ratio:not-annualised-over-the-daily-returns-of-the-series"
                                          ELSE "ok")
                            /\ UNCHANGED <<nd, lastv, vals>>
   /\ l' = l + 1 /\ UNCHANGED tid
